@@ -66,7 +66,8 @@ def ser_case(case):
     c, r, app = case["cfg"], case["req"], case["app"]
     out = ["run", cps(c["ident"]), "1" if c["expose"] else "0", "1" if c["logsock"] else "0",
            cps(c["date"]), cps(c["tb"]), cps(r["version"]),
-           "none" if r["conn"] is None else cps(r["conn"]), "1" if r["head"] else "0"]
+           "none" if r["conn"] is None else cps(r["conn"]), "1" if r["head"] else "0",
+           "1" if r.get("cclose") else "0"]
     if r["err"] is None:
         out.append("none")
     else:
@@ -246,8 +247,9 @@ class StubRequest:
     completed = True
     empty = False
 
-    def __init__(self, version, conn, head, error):
+    def __init__(self, version, conn, head, error, connection_close=False):
         self.version = version
+        self.connection_close = connection_close
         self.headers = {}
         if conn is not None:
             self.headers["CONNECTION"] = conn
@@ -422,7 +424,7 @@ def run_real(case):
     err = None
     if rq["err"] is not None:
         err = getattr(utilities, rq["err"][0])(rq["err"][1])
-    request = StubRequest(rq["version"], rq["conn"], rq["head"], err)
+    request = StubRequest(rq["version"], rq["conn"], rq["head"], err, bool(rq.get("cclose")))
 
     def application(environ, start_response):
         def sr(*a):
@@ -598,13 +600,13 @@ def compare(case, model_line, real):
 
 
 def mk_case(call=None, kind=("gen",), steps=(), version="1.1", conn=None, head=False, err=None, disc=None,
-            has_close=True, close_exn=None, expose=False, logsock=True, ident="waitress", **kw):
+            has_close=True, close_exn=None, expose=False, logsock=True, ident="waitress", cclose=False, **kw):
     app = {"call": [list(a) for a in (call or [])], "kind": list(kind),
            "steps": [{"acts": [list(x) for x in a], "res": list(r)} for a, r in steps],
            "has_close": has_close, "close_exn": close_exn}
     app.update(kw)
     return {"cfg": {"ident": ident, "expose": expose, "logsock": logsock, "date": DATE, "tb": TB_MARK},
-            "req": {"version": version, "conn": conn, "head": head, "err": err}, "disc": disc, "app": app}
+            "req": {"version": version, "conn": conn, "head": head, "err": err, "cclose": cclose}, "disc": disc, "app": app}
 
 
 def Y(b, acts=()):
@@ -651,7 +653,7 @@ SHAPES = [
 ]
 
 
-def table_case(head, version, conn, status, clmode, shape):
+def table_case(head, version, conn, status, clmode, shape, cclose=False):
     name, kind, chunks, wr, extra = shape
     total = sum(len(c) for c in chunks) + (len(wr) if wr else 0)
     hs = [("Content-Type", "text/plain")]
@@ -663,7 +665,8 @@ def table_case(head, version, conn, status, clmode, shape):
         call.append(W(wr))
     kw = {"has_close": True}
     kw.update(extra)
-    return mk_case(call, kind=kind, steps=[Y(c) for c in chunks], version=version, conn=conn, head=head, **kw)
+    return mk_case(call, kind=kind, steps=[Y(c) for c in chunks], version=version, conn=conn, head=head,
+                   cclose=cclose, **kw)
 
 
 def decision_table():
@@ -675,8 +678,9 @@ def decision_table():
                 for status in STATUSES:
                     for clmode in CL_MODES:
                         for shape in SHAPES:
-                            out.append((("table", head, version, conn, status, clmode, shape[0]),
-                                        table_case(head, version, conn, status, clmode, shape)))
+                            for cclose in (False, True):
+                                out.append((("table", head, version, conn, status, clmode, shape[0], cclose),
+                                            table_case(head, version, conn, status, clmode, shape, cclose)))
     return out
 
 
@@ -1023,7 +1027,7 @@ def random_script(rng):
     disc = rng.choice([None] * 6 + [0, 1, 2, 3, 4])
     return mk_case(call, kind=kind, steps=steps, version=version, conn=conn, head=rng.random() < 0.15,
                    disc=disc, expose=rng.random() < 0.3, logsock=rng.random() < 0.7,
-                   ident=rng.choice(["waitress", "waitress", "", "srv/1.0"]), **extra)
+                   ident=rng.choice(["waitress", "waitress", "", "srv/1.0"]), cclose=rng.random() < 0.15, **extra)
 
 
 def random_cases(rng, tier):
